@@ -391,6 +391,20 @@ func expectedFailures(x *Exec, r *StepRec) map[string]int {
 			}
 			f[bkey(c.ServiceName, q.Provider)]++
 		}
+	case r.Kind == "msg" && r.Msg.T == "call":
+		// a call to a module-reserved service is answered inside the step by the module that registered it: a malformed
+		// answer is a failed request of the module's binding
+		for _, rid := range r.Post.ReqIDs() {
+			if _, old := pre.Req[rid]; old {
+				continue
+			}
+			q := r.Post.Req[rid]
+			if resp, ok := r.Post.Resp[rid]; ok && outputKind(resp.Output) == "malformed" {
+				if c, ok := r.Post.Ctx[hx(q.RequestContextId)]; ok {
+					f[bkey(c.ServiceName, q.Provider)]++
+				}
+			}
+		}
 	case r.Kind == "msg" && r.Msg.T == "respond":
 		if outputKind(r.Msg.Output) == "malformed" {
 			rid := hx(r.SdkMsg.(*types.MsgRespondService).RequestId)
